@@ -392,7 +392,9 @@ def sample(ctx, budget=1.0, hint=None, broken=None):
         kinds = []
         while deg < 8 and r.random() < 0.6:
             kind = r.choice(['out', 'complex', 'cluster2', 'near'])
-            if kind == 'out':
+            if False:
+                pass
+            elif kind == 'out':
                 extras.append(r.choice([-1, 1]) * r.uniform(1.2, 3)); deg += 1
             elif kind == 'complex' and deg <= 6:
                 z = complex(r.uniform(-0.5, 1.5), r.uniform(0.2, 1)); extras += [z, z.conjugate()]; deg += 2
@@ -432,6 +434,32 @@ def sample(ctx, budget=1.0, hint=None, broken=None):
                 break
         if it == 0:
             samples.append({'kind': 'polyroots01', 'prescribed_roots': [repr(q) for q in allroots], 'returned': [float(g) for g in got]})
+
+    # (e') a simple root just inside [0,1] whose nearest neighbour lies just OUTSIDE (rejected by the condition), in a polynomial
+    # of degree <= 4 with no other cluster (so that np.roots resolves the pair to ~1e-9): the inside root must be returned once
+    for it in range(int(ctx.n(40, 400) * budget)):
+        dlt = r.choice([2e-6, 3e-6, 4.5e-6])      # 2*dlt is below isclose's relative 1e-5
+        end_ = r.choice([0.0, 1.0])
+        x = end_ + (dlt if end_ == 0.0 else -dlt)
+        others = []
+        for _ in range(r.randint(0, 2)):
+            y = round(r.uniform(-0.5, 1.5), 2)
+            if abs(y - end_) > 0.2 and all(abs(y - o) > 0.2 for o in others):
+                others.append(y)
+        allroots = [x, 2 * end_ - x] + others
+        r.shuffle(allroots)
+        coeffs = np.real(np.poly(allroots)) * r.choice([1.0, -2.5, 1e3])
+        n_eval += 1
+        nontriv.add(('straddle', end_, dlt, len(others)))
+        try:
+            got = list(pt.polyroots01(coeffs))
+            cnt = sum(1 for g in got if abs(g - x) < 1e-6)
+        except Exception as e:
+            got, cnt = repr(e), -1
+        if cnt != 1:
+            fail('polyroots01/simple-root-next-to-a-rejected-root', 'a simple real root in [0,1] whose close neighbour lies outside [0,1] is reported %d times' % cnt,
+                 {'coeffs': [float(c).hex() for c in coeffs], 'root': x, 'prescribed_roots': [repr(q) for q in allroots]},
+                 repr(got), 'exactly one value within 1e-6 of %r' % x, 'svgpathtools.polytools.polyroots01(%r)' % ([float(c) for c in coeffs],))
 
     # (f) rational_limit on float polynomials with common zeros
     for it in range(int(ctx.n(100, 1000) * budget)):
